@@ -3,7 +3,7 @@ onto the events spec/Fork.tla speaks about, construction of the child's trace (p
 import json, os, re
 from vlib import *
 
-OPS = ("call", "sync", "barrier", "rl", "ru", "reg", "unreg", "create", "setthr", "setcpu", "cpu", "before", "fork", "after",
+OPS = ("call", "sync", "barrier", "rl", "ru", "reg", "unreg", "create", "setthr", "setcpu", "cpu", "before", "fork", "after", "before2", "after2",
        "bpbefore", "bpafter", "waitf", "waitb", "post", "wait", "add", "resize", "htwait", "htexit", "offline", "online", "qs")
 
 
@@ -34,6 +34,8 @@ def program(sc):
     out = []
     if sc.get("ht"):
         out.append("ht %d" % sc.get("htmax", 8))
+        if any(o["op"] == "before2" for ops in sc["threads"].values() for o in ops):
+            out.append("ht2")          # a second table on a second flavor (registers the rculfhash atfork handlers with that flavor too)
     for t, ops in sc["threads"].items():
         out.append("thread %s %d" % (t, sc.get("cpu", {}).get(t, 0)))
         for o in ops:
